@@ -31,7 +31,7 @@ ASSUMPTIONS = [
 DECIDING = [("TensorNetwork.contract", "value"), ("tensor_contract", "value"),
             ("TNLinearOperator", "matvec"), ("TensorNetwork.to_dense", "value")]
 SUITE = ["tests/test_tensor/test_tensor_core.py",
-         "tests/test_tensor/test_tensor_1d.py",
+         "tests/test_tensor/test_tn1d/test_core.py",
          "tests/test_tensor/test_contract.py"]
 
 MAX_REF = 2 ** 20
